@@ -33,7 +33,7 @@ def key_of(clause, label, prog, tr, l):
 
 def keep(r):
     if r["e"] == "step_end":
-        r["failed"] = r["how"].startswith("raise:")
+        r["failed"] = r["how"].startswith("raise:") and r["how"] != "raise:WaitingForEvent"   # suspending in wait_for_event is not a failure
     return True
 
 
